@@ -33,13 +33,19 @@ TRUSTED = ["numpy np.sort/np.delete/np.append/np.cumsum/fancy indexing modelled 
 ASSUMPTIONS = ["atom counts stay below 2^31 (uint32/int32 arithmetic of offset_indices/concatenate is modelled without wrap; "
                "only _to_positive_index is modelled at C width)",
                "memory safety is argued only through the bounds invariants proved on the model (cachedMax, index < n)"]
-LEVEL_TEXT = ("proof: canonical-form and cachedMax invariants for every operation, refinement of every mutating operation "
-              "to a map from unordered pairs to one type, views as functions of that map, all proved for all inputs in "
-              "Lean 4; partial for the index guard: _to_positive_index accepts indices below -n (C02_index_defect*, "
-              "known findings), so 'rejected with IndexError' is proved only for i >= n and the accepted range [-n, n)")
+LEVEL_TEXT = ("proof (Lean 4, all inputs, 36 theorems): every operation keeps both lists canonical and the cached maximum a "
+              "bound of every degree (so get_bonds/get_all_bonds stay inside their buffers); every operation refines a "
+              "reference map from sorted pairs to one type (first wins at construction, new type on update, argument on "
+              "merge, disjoint union with offset, __getitem__ = relabelling by the inverse index, mask branch = index "
+              "branch of nonzero(mask), slices of any step/bounds select duplicate-free atoms below n), lifted to whole "
+              "histories (C02_refines); all views (as_array/as_set/as_graph, get_bonds, get_all_bonds, both matrices, "
+              "membership, ==) are functions of that map; merge is total. Partial for the index guard only: "
+              "_to_positive_index accepts indices below -n (C02_index_defect*, C02_canon_defect, known findings), so "
+              "'rejected with IndexError' is proved for i >= n and [-n, n) is proved accepted; the invariants for add_bond "
+              "carry the hypothesis i, j >= -n")
 LEVEL_NOTE = ("model tied to bonds.pyx by op-by-op correspondence and a regenerated BondType/aromaticity table; "
               "numpy primitives, networkx and C memory safety beyond the proved index bounds are trusted")
-TECHNIQUE = "Lean 4 proof (invariants + refinement to a finite-map spec, induction over lists) + differential correspondence"
+TECHNIQUE = "Lean 4 proof (invariants + refinement of every operation and of whole histories to a finite-map spec, induction over lists, BitVec 32 index arithmetic) + differential correspondence in a crash-contained worker"
 
 INT32 = (-2 ** 31, 2 ** 31 - 1)
 MAX_N = 40          # generator keeps atom counts small (matrices are printed)
@@ -367,13 +373,153 @@ def _run_impl_inner(case):
     return [_exec(st, op.split()) for op in case["ops"]]
 
 
-def run_impl(case):
-    """The whole history runs in a forked child: a changed kernel that corrupts memory on *valid* input must not
-    take the check down with it."""
+# ---- persistent forked worker -------------------------------------------------------------------------------------
+# One child serves up to WORKER_BATCH histories (fresh BondList objects per history), so the fork + pickle cost is
+# paid once per batch instead of twice per history.  Crash containment is kept: the parent never touches a BondList;
+# if the worker dies or hangs, it is replaced and *that* history is re-run alone in its own child (`run_forked`),
+# which decides whether the history itself kills the process.
+WORKER_BATCH = 64
+
+
+def _send(fd, obj):
+    import pickle
+    import struct
+    data = pickle.dumps(obj)
+    data = struct.pack("<Q", len(data)) + data
+    while data:
+        n = os.write(fd, data)
+        data = data[n:]
+
+
+def _recv(fd, timeout):
+    """One framed message, or None on EOF / timeout."""
+    import pickle
+    import select
+    import struct
+    import time
+    deadline = time.time() + timeout
+
+    def read_n(n):
+        buf = b""
+        while len(buf) < n:
+            left = deadline - time.time()
+            if left <= 0:
+                return None
+            r, _, _ = select.select([fd], [], [], left)
+            if not r:
+                return None
+            chunk = os.read(fd, n - len(buf))
+            if not chunk:
+                return None
+            buf += chunk
+        return buf
+    head = read_n(8)
+    if head is None:
+        return None
+    body = read_n(struct.unpack("<Q", head)[0])
+    return None if body is None else pickle.loads(body)
+
+
+def _serve(rfd, wfd):
+    while True:
+        msg = _recv(rfd, 3600)
+        if msg is None:
+            return
+        kind, case = msg
+        try:
+            res = ("ok", _run_impl_inner(case) if kind == "impl" else _oracle_inner(case))
+        except BaseException as e:  # noqa: BLE001
+            res = ("err", type(e).__name__, str(e)[:300])
+        _send(wfd, res)
+
+
+class _Worker:
+    def __init__(self):
+        self.pid = None
+        self.served = 0
+
+    def start(self):
+        import numpy, networkx                       # noqa: F401  (loaded once in the parent, inherited by the children)
+        import biotite.structure.bonds              # noqa: F401
+        p_r, c_w = os.pipe()
+        c_r, p_w = os.pipe()
+        pid = os.fork()
+        if pid == 0:
+            try:
+                os.close(p_r)
+                os.close(p_w)
+                _serve(c_r, c_w)
+            finally:
+                os._exit(0)
+        os.close(c_r)
+        os.close(c_w)
+        self.pid, self.r, self.w, self.served = pid, p_r, p_w, 0
+
+    def stop(self, kill=False):
+        import signal
+        if self.pid is None:
+            return
+        for fd in (self.w, self.r):
+            try:
+                os.close(fd)
+            except OSError:
+                pass
+        if kill:
+            try:
+                os.kill(self.pid, signal.SIGKILL)
+            except OSError:
+                pass
+        try:
+            os.waitpid(self.pid, 0)
+        except OSError:
+            pass
+        self.pid = None
+
+    def call(self, kind, case, timeout):
+        """('ok', value) | ('err', class, msg) | None when the worker died or hung (it is replaced)."""
+        if self.pid is None or self.served >= WORKER_BATCH:
+            self.stop()
+            self.start()
+        self.served += 1
+        try:
+            _send(self.w, (kind, {k: v for k, v in case.items() if not k.startswith("_")}))
+            res = _recv(self.r, timeout)
+        except OSError:
+            res = None
+        if res is None:
+            self.stop(kill=True)
+        return res
+
+
+_WORKER = _Worker()
+
+
+def _stop_worker():
+    _WORKER.stop(kill=True)
+
+
+import atexit  # noqa: E402
+atexit.register(_stop_worker)
+
+
+def _in_child(kind, fn, case, timeout):
+    """Result of fn(case) computed outside the parent: by the shared worker, or alone in its own child if the worker
+    did not survive.  Returns the tuple of `sandbox.run_forked`."""
     from common import sandbox
-    import numpy, networkx                           # noqa: F401  (loaded once in the parent, inherited by the children)
-    import biotite.structure.bonds                  # noqa: F401
-    r = sandbox.run_forked(_run_impl_inner, case, timeout=120)
+    res = None
+    if os.environ.get("VERIF_C02_NO_WORKER") != "1":
+        res = _WORKER.call(kind, case, timeout)
+    if res is None:
+        import numpy, networkx                       # noqa: F401
+        import biotite.structure.bonds              # noqa: F401
+        res = sandbox.run_forked(fn, case, timeout=timeout)
+    return res
+
+
+def run_impl(case):
+    """The whole history runs in a child process: a changed kernel that corrupts memory on *valid* input must not
+    take the check down with it."""
+    r = _in_child("impl", _run_impl_inner, case, 120)
     if r[0] == "ok":
         return r[1]
     return ["PROCESS-KILLED" if r[0] == "crash" else r[0].upper()]
@@ -572,11 +718,9 @@ def _finding_key(w, n, got):
 
 
 def oracle(case):
-    """Forked wrapper of `_oracle_inner`; if the child is killed, the killing op is located by replaying prefixes."""
+    """`_oracle_inner` in a child process (shared worker, or alone after a crash); if the child is killed, the killing op is located by replaying prefixes."""
     from common import sandbox
-    import numpy, networkx                           # noqa: F401
-    import biotite.structure.bonds                  # noqa: F401
-    r = sandbox.run_forked(_oracle_inner, case, timeout=300)
+    r = _in_child("oracle", _oracle_inner, case, 300)
     if r[0] == "ok":
         return r[1]
     if r[0] == "err":
@@ -859,7 +1003,7 @@ def _ub_probe(rng, refs):
 
 
 def cases(rng, tier):
-    n_valid, n_invalid = (330, 170) if tier == "quick" else (9000, 3000)
+    n_valid, n_invalid = (700, 300) if tier == "quick" else (9000, 3000)
     for _ in range(n_valid):
         ops, _ = _history(rng, rng.choice([1, 2, 3, 5, 8, 12, 18, 25, 30]))
         yield {"kind": "history", "ops": ops}
